@@ -152,7 +152,7 @@ fn thread_main(mut ctx: ThreadCtx) {
                         Res::Items(rest)
                     }
                     Op::DropHandle => Res::Unit,
-                    Op::InvalidateIf { .. } => Res::Skipped,
+                    Op::InvalidateIf { .. } | Op::IterSteps { .. } => Res::Skipped,
                 }))
             };
             crate::types::set_in_op(false);
